@@ -101,6 +101,8 @@ def c02(c):
     ok = common_proof(c, "IvpModel.Props.C02", C02_THEOREMS)
     if c.build_harness():
         order_monitor(c, want_dense=False)
+        if c.build_driver():
+            radaunum_stream(c)
     c.cov["samples"] += [
         {"theorem": "dopri5_order5", "statement": "∀ t : BTree, t.order ≤ 5 → condExact dopri5Tab.N dopri5Tab.M dopri5Tab.S t = true"},
         {"theorem": "dop853_order8", "statement": "∀ t : BTree, t.order ≤ 8 → condApprox dop853Tab.N dop853Tab.M dop853Tab.S (10^25) t = true  (626 trees)"},
@@ -118,7 +120,7 @@ C06_THEOREMS = [
     "ContM.c06_not_enabled", "ContM.c06_cover", "ContM.c06_first_hit", "ContM.c06_many_no_panic", "ContM.c06_from_segments",
     "ContM.c06_constant", "SolOutM.c06_collect",
     "BdfNum.c06_bdf_interp_ends", "BdfNum.c06_bdf_change_d", "BdfNum.interp_nodes", "BdfNum.changeD_poly", "BdfNum.changeD_keeps_d0",
-    "BdfNum.denseCont_get",
+    "BdfNum.denseCont_get", "RadauNum.c06_radau_interp_ends", "RadauNum.interp_collocation", "RadauNum.node_identities",
 ]
 
 
@@ -160,6 +162,7 @@ def c06(c):
         c.stream("xcont", ["xcont", c.seed, 1500 if c.tier == "quick" else 30000], "cont")
         handler_stream(c)
         bdfnum_stream(c)
+        radaunum_stream(c)
         n = 120 if c.tier == "quick" else 1500
         generic_monitor(c, "dense_check", ["dense-check", c.seed, n], "dense")
     c.cov["samples"] += [
@@ -168,7 +171,7 @@ def c06(c):
         {"theorem": "ContM.c06_cover", "statement": "Chain fwd x (s :: r) → sol_span = (x, end) ∧ x ≠ end ∧ (min x end ≤ t ≤ max x end → ∃ s' ∈ segs, sol t = ok s'.id ∧ t within tol of s') ∧ (t outside → sol t = OutOfRange)   (both directions, any number of steps)"},
         {"theorem": "SolOutM.c06_collect", "statement": "step … = some (s', f) → s'.denseSegs = if collectDense ∧ x ≠ xold ∧ ip.h ≠ 0 then s.denseSegs.push (ip.xold, ip.h) else s.denseSegs"},
     ]
-    c.partial = ["Radau's interpolant is covered by the dense_check monitor on the implementation, not yet by a theorem; BDF's interpolant and change_d are theorems about the full numeric model (orders 1..5), which X-bdfnum ties to the solver bit for bit",
+    c.partial = ["Radau's and BDF's interpolants (and BDF's change_d, orders 1..5) are theorems about the full numeric models RadauNum / BdfNum, which X-radaunum / X-bdfnum tie to the solvers bit for bit (every callback carries five interpolant samples)",
                  "the segment lookup theorems take the chain property of the collected segments (each starts where the previous one ended) as hypothesis: it follows from the callback protocol (C19) and c06_collect in exact arithmetic; in binary64 `xold + h` is recomputed by the lookup from the stored pair, which X-cont and dense_check exercise",
                  "binary64 rounding at the ends ('to rounding'): theorems are exact-arithmetic"]
 
@@ -180,6 +183,7 @@ C07_THEOREMS = [
     "rk4_dense_weights", "rk23_dense_weights", "dopri5_dense_weights", "dop853_dense_weights", "dop853_extra_stage_eqs",
     "BTree.forall_of_all",
     "BdfNum.c07_bdf_interp_is_step_polynomial", "BdfNum.c07_bdf_update_keeps_differences", "BdfNum.interp_nodes", "BdfNum.update_bdiff",
+    "RadauNum.c07_radau_collocation", "RadauNum.interp_collocation",
 ]
 
 
@@ -190,12 +194,13 @@ def c07(c):
         generic_monitor(c, "bdf_dense_check", ["bdf-dense-check", c.seed], "bd")
         if c.build_driver():
             bdfnum_stream(c)
+            radaunum_stream(c)
     c.cov["samples"] += [
         {"theorem": "dopri5_dense_order4", "statement": "∀ t : BTree, t.order ≤ 4 → dopri5Dense.condTree t = true   (Σ_i w_i(θ)Φ_i(t) = θ^|t|/γ(t) coefficientwise)"},
         {"theorem": "dop853_dense_weights", "statement": "interpolate (xold+θh) xold h (dense1/dense2 blocks) = denseVal dop853Dense 16 h θ y (K1,K6..K16), all n, h ≠ 0, θ"},
     ]
     c.partial = ["continuous Butcher theorem (conditions ⇒ uniform O(h^{q+1}) error) is cited, not formalised",
-                 "Radau (collocation polynomial) interpolant accuracy: only observed by the order monitor",
+                 "Radau: the interpolant is proved to be the collocation polynomial (through the old state and the three stage values); that the collocation polynomial is O(h^4)-accurate is classical and cited; the observed order is the monitor's",
                  "BDF: the interpolant is proved to be the polynomial through the last k+1 accepted values (k = 1..5) on an equidistant grid; after a step-size change the history is the rescaled one (change_d preserves the polynomial, C06); 'as accurate as the step' itself is measured by bdf_dense_check"]
 
 
@@ -308,6 +313,11 @@ def bdfnum_stream(c):
     return c.stream("xbdfnum", ["xbdfnum", c.seed, 120 if c.tier == "quick" else 3000], "bdfnum")
 
 
+def radaunum_stream(c):
+    """X-radaunum: the full numeric model of RADAU::solve re-run on the logged right-hand side / Jacobian / mass of real runs"""
+    return c.stream("xradaunum", ["xradaunum", c.seed, 150 if c.tier == "quick" else 4000], "radaunum")
+
+
 def only_keys(c, prefixes):
     """keep monitor violations whose finding key starts with one of `prefixes` (other properties own the rest)"""
     c.violations = [v for v in c.violations if v["kind"] != "implementation-vs-oracle"
@@ -323,6 +333,7 @@ def c03(c):
     if c.build_harness() and c.build_driver():
         solve_stream(c)
         radau_stream(c)
+        radaunum_stream(c)
         generic_monitor(c, "interval_check", ["interval-check", c.seed, 250 if c.tier == "quick" else 5000], "iv")
         generic_monitor(c, "protocol_check", ["protocol-check", c.seed, 120 if c.tier == "quick" else 3000], "pr")
     only_keys(c, ("c03",))
@@ -333,7 +344,7 @@ def c03(c):
 
 C04_THEOREMS = ["Ctl.hIter_reject_of_not_le", "Ctl.rk23Iter_reject_of_not_le", "Ctl.rk23_reject_factor_nan", "Ctl.hIter_cases",
                 "Ctl.hSolve_protocol", "Ctl.dopri5_guard_progress", "Ctl.dop853_guard_progress", "Ctl.rk23_guard_progress",
-                "Ctl.hGuard_none_progress", "Ctl.dopri5Params_underflow", "Ctl.dop853Params_underflow"]
+                "Ctl.hGuard_none_progress", "Ctl.dopri5Params_underflow", "Ctl.dop853Params_underflow", "c04_radau_nan_estimate"]
 
 
 def c04(c):
@@ -341,6 +352,7 @@ def c04(c):
     if c.build_harness() and c.build_driver():
         solve_stream(c)
         radau_stream(c)
+        radaunum_stream(c)
         generic_monitor(c, "hostile_check", ["hostile-check", c.seed, 60 if c.tier == "quick" else 1500], "hs", timeout=3000)
         generic_monitor(c, "interval_check", ["interval-check", c.seed, 120 if c.tier == "quick" else 2000], "iv")
     only_keys(c, ("c04",))
@@ -358,6 +370,7 @@ def c11(c):
     if c.build_harness() and c.build_driver():
         solve_stream(c)
         radau_stream(c)
+        radaunum_stream(c)
         generic_monitor(c, "protocol_check", ["protocol-check", c.seed, 200 if c.tier == "quick" else 4000], "pr")
         generic_monitor(c, "options_check", ["options-check", c.seed, 60 if c.tier == "quick" else 1500], "op")
     only_keys(c, ("c11",))
@@ -413,6 +426,7 @@ def c18(c):
     if c.build_harness() and c.build_driver():
         solve_stream(c)
         radau_stream(c)
+        radaunum_stream(c)
         bdfnum_stream(c)
         generic_monitor(c, "interval_check", ["interval-check", c.seed, 250 if c.tier == "quick" else 5000], "iv")
         generic_monitor(c, "protocol_check", ["protocol-check", c.seed, 100 if c.tier == "quick" else 2000], "pr")
@@ -430,6 +444,7 @@ def c19(c):
     if c.build_harness() and c.build_driver():
         solve_stream(c)
         radau_stream(c)
+        radaunum_stream(c)
         generic_monitor(c, "protocol_check", ["protocol-check", c.seed, 250 if c.tier == "quick" else 5000], "pr")
     only_keys(c, ("c19",))
     c.partial = ["'unchanged state is a no-op' and 'doubling doubles everything' are monitored (protocol-check), not proved; open findings: BDF restart, Radau Newton start",
@@ -565,7 +580,8 @@ def c20(c):
 
 
 # ---------------------------------------------------------------------------------------------- C15 (mass / storages)
-C15_THEOREMS = ["Mat.c15_default_mass_identity", "Mat.c15_default_mass_spec", "Mat.c15_storage_independence", "Mat.defaultMassLoop_spec"]
+C15_THEOREMS = ["Mat.c15_default_mass_identity", "Mat.c15_default_mass_spec", "Mat.c15_storage_independence", "Mat.defaultMassLoop_spec",
+                "c15_radau_mass_products"]
 
 
 def c15(c):
@@ -587,6 +603,7 @@ def c15(c):
             c.stream("xmatrix", ["xmatrix", c.seed, 300, 6, 2], "matrix")
         else:
             c.stream("xmatrix", ["xmatrix", c.seed, 6000, 8, 3], "matrix")
+        radaunum_stream(c)
         generic_monitor(c, "mass_check", ["mass-check", c.seed, 40 if c.tier == "quick" else 800], "ms")
     c.cov["samples"] += [{"theorem": "Mat.c15_default_mass_identity",
                           "statement": "∀ n s, ∃ B, defaultMass (fromStorage n n s) = some B ∧ WF B ∧ ∀ i j < n, B.get i j = some (if i = j then 1 else 0)"}]
@@ -646,6 +663,7 @@ def c14(c):
     common_proof(c, "IvpModel.Props.C14", C14_THEOREMS)
     if c.build_harness() and c.build_driver():
         radau_stream(c)
+        radaunum_stream(c)
         bdfnum_stream(c)
         generic_monitor(c, "stiff_check", ["stiff-check", c.seed, 30 if c.tier == "quick" else 600], "st", timeout=3000)
         generic_monitor(c, "interval_check", ["interval-check", c.seed, 120 if c.tier == "quick" else 2000], "iv")
